@@ -5,7 +5,7 @@ from typing import Any, Dict, List, Optional, Tuple
 
 from ..facts import AnalysisError
 from ..report import Check
-from ..symexec import freeze, show, Path, Event
+from ..symexec import freeze, show, Path, Event, SymExec
 from .. import opmodel as om
 from .. import ctx as C
 from .. import actions as A
@@ -193,6 +193,38 @@ def check(chk: Check) -> None:
 
     _r2(chk, R2, order_of, rl)
     _r3(chk, R3)
+    _r4(chk)
+
+
+def _r4(chk: Check) -> None:
+    """Exactly once starts at the root: the entry point walks the program's tree once.  A walk that is started again after the
+    first one failed (a retry, a fallback) evaluates everything up to the failure twice."""
+    import ast
+    F = chk.facts
+    R4 = chk.rule('C09.R4', 'the tree is walked once per call: on every path of SqParser.eval the program\'s tree is evaluated at most '
+                            'once, and no tree evaluation sits in an except/finally block (a retry after a failed walk repeats '
+                            'every operand evaluated before the failure)', floor=1)
+    q = 'smartquery.sq_parser.SqParser.eval'
+    fi = F.func(q)
+    problems = []
+    n = 0
+    for p in SymExec(F, fi).run():
+        evs = [e for e in p.events if e.kind == 'call' and e.resolved is None and isinstance(freeze(e.func), tuple)
+               and freeze(e.func)[:1] == ('attr',) and freeze(e.func)[2] == om.EVAL]
+        main = [e for e in evs if not e.in_ctx('loop')]
+        n += bool(main)
+        for e in evs:
+            if e.in_ctx('handler') or e.in_ctx('finally'):
+                problems.append('`%s` (line %d) runs inside an except/finally block: after a failed walk the tree is evaluated again, so '
+                                'every operand, argument and element evaluated before the failure is evaluated twice' % (e.text(), e.line))
+        recv = {}
+        for e in main:
+            recv.setdefault(freeze(freeze(e.func)[1]), []).append(e)
+        for r, es in recv.items():
+            if len(es) > 1:
+                problems.append('`%s` is evaluated %d times on one path' % (es[0].text(), len(es)))
+    chk.require(not problems and n, R4, q, fi.where, '; '.join(sorted(set(problems))[:3]) or
+                '%d path(s) evaluate the tree, each of them once and outside any handler' % n)
 
 
 def _pd(p: Path) -> str:
